@@ -136,10 +136,46 @@ impl Property for C01 {
         "C01"
     }
     fn cases(&self, cfg: &Cfg) -> u64 {
-        Plan::for_tier(cfg.tier, 3_000, 300_000).cases()
+        Plan::for_tier(cfg.tier, 3_000, 300_000).cases() + cfg.tier.pick(0, 320)
     }
     fn run_case(&self, cfg: &Cfg, i: u64, acc: &mut Acc) {
         let plan = Plan::for_tier(cfg.tier, 3_000, 300_000);
+        let planned = plan.cases();
+        if i >= planned {
+            // real-time multi-thread variant: callers run on 4 worker threads, so requests are enqueued
+            // through tokio's channel from truly parallel threads; wall clock is a watchdog only
+            let mut r = crate::util::rng::Rng::keyed(&[cfg.seed, 0x3717, i]);
+            let mut sc = crate::sim::session::Scenario::new("realtime-multithread", crate::util::rng::mix(&[cfg.seed, i]));
+            sc.realtime = true;
+            sc.epilogue = false;
+            for k in 0..6u64 {
+                let steps = (0..4)
+                    .map(|j| {
+                        if (k + j) % 3 == 0 {
+                            crate::sim::session::Step::Do(crate::sim::session::Req::RawList { n: 3, fail_at: if j == 2 { Some((1, 50)) } else { None }, shape: (k + j) % 7 })
+                        } else {
+                            crate::sim::session::Step::Do(crate::sim::session::Req::Raw { shape: (k * 3 + j) % 7 })
+                        }
+                    })
+                    .collect();
+                sc.callers.push((std::time::Duration::from_millis(r.below(3) as u64), steps));
+            }
+            sc.notifications = vec![(std::time::Duration::from_millis(1), vec!["player".into()]), (std::time::Duration::from_millis(3), vec!["mixer".into()])];
+            let out = sess::run(&sc);
+            acc.inc("evaluations");
+            acc.inc("realtime_multithread_sessions");
+            if !out.hung.is_empty() {
+                acc.inconclusive(format!("real-time session: {:?} not finished within the 30 s wall-clock limit", out.hung));
+                return;
+            }
+            if !sess::common_faultfree(acc, i, &sc, &out) {
+                return;
+            }
+            let a = Analysis::new(&out);
+            acc.distinct("nontrivial", a.signature());
+            check(acc, i, &sc, &out, &a, true);
+            return;
+        }
         let sc = plan.scenario(cfg, i);
         let out = sess::run(&sc);
         acc.inc("evaluations");
@@ -164,13 +200,16 @@ impl Property for C01 {
         let mut floors = sess::coverage_floors(cfg.tier);
         floors.push(("calls_checked".into(), 5000));
         floors.push(("list_failures_checked".into(), 50));
+        if cfg.tier == crate::util::Tier::Thorough {
+            floors.push(("realtime_multithread_sessions".into(), 100));
+        }
         Meta {
             level: "exploration",
-            rule: "same session engine and scenarios as C05 (30 directed scenarios x variants + seeded random: 1-6 callers through client clones, raw commands and lists, pipelined futures, cancellation after 0..2D, typed tuples/vectors, replies 20 B - 9 KiB incl. binary and idle-look-alike replies, all segmentations, notifications racing with requests); every request carries a unique id (caller, seq) in its arguments and the simulated server's reply is a pure function of that id, recomputed by the checker: every resolved call must carry exactly its own reply (frames, field order, values, binary), a list failing at index f must give the server's ACK (code, index f, command, message) plus exactly the frames 0..f, the request lines of one caller must reach the server in issue order, nothing may hang, cancelled calls must not disturb the others; non-trivial = session with overlap (P1,P2,P6,P7,P9,P12); distinct by interleaving signature".into(),
+            rule: "same session engine and scenarios as C05 (30 directed scenarios x variants + bounded-exhaustive timing grids (request at 50..70 ms x notification at 50..70 ms at 1 ms resolution x wire latency x idle-reply chopping; second request and notification at -5..+5 ms around the end of the re-idle window) x select! seeds + seeded random: 1-6 callers through client clones, raw commands and lists, pipelined futures, cancellation after 0..2D, typed tuples/vectors, replies 20 B - 9 KiB incl. binary and idle-look-alike replies, all segmentations, notifications racing with requests); every request carries a unique id (caller, seq) in its arguments and the simulated server's reply is a pure function of that id, recomputed by the checker: every resolved call must carry exactly its own reply (frames, field order, values, binary), a list failing at index f must give the server's ACK (code, index f, command, message) plus exactly the frames 0..f, the request lines of one caller must reach the server in issue order, nothing may hang, cancelled calls must not disturb the others; non-trivial = session with overlap (P1,P2,P6,P7,P9,P12); distinct by interleaving signature".into(),
             nontrivial_set: "nontrivial",
             assumptions: vec![
                 "simulated server as in C05; a cancelled call may or may not reach the server".into(),
-                "schedules of a cooperative single-threaded executor with seeded select!; true multi-thread enqueueing is not explored".into(),
+                "schedules of a cooperative single-threaded executor with seeded select!; plus real-time sessions on a 4-worker runtime (6 callers enqueueing from parallel threads), where wall clock is a watchdog only".into(),
             ],
             exhaustive: None,
             floors,
